@@ -117,7 +117,6 @@ def _oracle(ctx, net, opts, case, bypassed=False):
     """the laws of the property on the result tables"""
     bad = []
     known = []
-    known0 = []
     rb = net.res_bus
     vdl = opts["voltage_depend_loads"]
     enforce = bool(opts["enforce_q_lims"])
@@ -160,18 +159,16 @@ def _oracle(ctx, net, opts, case, bypassed=False):
         q = float(rg.q_mvar.at[i])
         if not slack and k not in ref_buses or (not slack and k in ref_buses):
             if not slack and abs(rg.p_mw.at[i] - net.gen.p_mw.values[pos] * net.gen.scaling.values[pos]) > 1e-9:
-                bad.append("gen %d: p %r != p_mw*scaling %r" % (i, rg.p_mw.at[i], net.gen.p_mw.values[pos] * net.gen.scaling.values[pos]))
+                w = "gen %d: p %r != p_mw*scaling %r" % (i, rg.p_mw.at[i], net.gen.p_mw.values[pos] * net.gen.scaling.values[pos])
+                bad.append(w)
         if not enforce or slack:
             if not held:
                 bad.append("gen %d: bus vm %r != setpoint %r (no limit enforcement applies)" % (i, rb.vm_pu.at[b], vset))
         else:
             if q > qmax + TOLQ or q < qmin - TOLQ:
                 # recorded defect: every bus is a reference bus -> solver and q-limit loop are bypassed (guard G04b false)
-                if (not bypassed) and opts.get("algorithm", "nr") in ("fdbx", "fdxb", "gs") and (abs(qmin) <= 1e-8 or abs(qmax) <= 1e-8):
-                    # recorded defect (runpf_pypower.py non_refs proxy): a q limit of exactly 0 exempts the gen from enforcement
-                    known0.append("gen %d: q %r outside [%r, %r] with enforce_q_lims, algorithm %s" % (i, q, qmin, qmax, opts["algorithm"]))
-                else:
-                    (known if bypassed else bad).append("gen %d: q %r outside [%r, %r] with enforce_q_lims" % (i, q, qmin, qmax))
+                (known if bypassed else bad).append("gen %d: q %r outside [%r, %r] with enforce_q_lims%s" % (
+                    i, q, qmin, qmax, "" if "algorithm" not in opts else ", algorithm " + opts["algorithm"]))
             if not held and not (abs(q - qmax) <= TOLQ or abs(q - qmin) <= TOLQ):
                 bad.append("gen %d: bus vm %r != setpoint %r but q %r is not at a limit [%r, %r]" % (i, rb.vm_pu.at[b], vset, q, qmin, qmax))
     for tab in ("sgen", "storage"):
@@ -216,9 +213,6 @@ def _oracle(ctx, net, opts, case, bypassed=False):
             bad.append("shunt %d: result %r,%r != step*p*(v*vn_bus/vn)^2 %r,%r" % (i, net.res_shunt.p_mw.at[i], net.res_shunt.q_mvar.at[i], ep, eq))
     for w in bad[:3]:
         ctx.violation("spec", w, case)
-    for w in known0[:1]:
-        ctx.violation("C04-pypower-qlim-zero-limit", w, case)
-        ctx.count("known:C04-pypower-qlim-zero-limit")
     for w in known[:1]:
         ctx.violation("C04-qlim-bypass", w + " (all buses are reference buses: solver and q-limit loop bypassed)", case)
         ctx.count("known:C04-qlim-bypass")
